@@ -212,6 +212,8 @@ func (p *peer) Dial(addr string, protoFunc ...ProtoFunc) (Session, *Status) {
 		sess.socket.SetID(sess.LocalAddr().String())
 		if stat := p.pluginContainer.postDial(sess, false); !stat.OK() {
 			conn.Close()
+			// a hook may have indexed the session by calling SetID
+			p.sessHub.delete(sess.ID())
 			return stat.Cause()
 		}
 		return nil
@@ -237,6 +239,8 @@ func (p *peer) Dial(addr string, protoFunc ...ProtoFunc) (Session, *Status) {
 				sess.changeStatus(statusPreparing)
 				if stat := p.pluginContainer.postDial(sess, true); !stat.OK() {
 					conn.Close()
+					// a hook may have indexed the session by calling SetID
+					p.sessHub.delete(sess.ID())
 					sess.changeStatus(statusRedialing)
 					return stat.Cause()
 				}
